@@ -15,7 +15,7 @@ from ..model import src
 from ..namekinds import NameKinds, mentions_separator, textual_tests
 from ..report import Report, key_of
 from .c07 import graph_orientation
-from .common import TRUSTED_BASE, cfg_nodes_for, subst_single_assign, where
+from .common import TRUSTED_BASE, bound_args, cfg_nodes_for, expanded_facts, inl, loop_runs_to_end, loop_unconditional, subst_single_assign, where
 
 
 def check_name_tests(A, R: Report, rid: str, funcs=None, only=None):
@@ -83,8 +83,20 @@ def check_expand_tasks(A, R: Report, rid: str):
     `::` segment of the candidate and (b) either a segment-wise comparison of the namespaces or the `~~` test."""
     fex = A.func('Chain._expand_tasks')
     cfg = A.cfg(fex)
-    loops = [n for n in A.typer.own_nodes(fex) if isinstance(n, ast.For) and src(n.iter) == fex.params[1]]
-    appends = [n for lp in loops for n in ast.walk(lp) if isinstance(n, ast.Call) and isinstance(n.func, ast.Attribute) and n.func.attr in ('append', 'add') and n.args and src(n.args[0]) == src(lp.target)]
+    tp = fex.params[1]
+    loops, appends = [], []
+    for n in inl(A, fex):
+        if not isinstance(n, ast.For):
+            continue
+        it = src(n.iter)
+        if it in (tp, f'{tp}.keys()', f'list({tp})', f'sorted({tp})', f'list({tp}.keys())', f'sorted({tp}.keys())') and isinstance(n.target, ast.Name):
+            namevar = n.target.id
+        elif it == f'{tp}.items()' and isinstance(n.target, ast.Tuple) and isinstance(n.target.elts[0], ast.Name):
+            namevar = n.target.elts[0].id
+        else:
+            continue
+        loops.append(n)
+        appends += [x for x in ast.walk(n) if isinstance(x, ast.Call) and isinstance(x.func, ast.Attribute) and x.func.attr in ('append', 'add') and x.args and src(subst_single_assign(A, fex, x.args[0])) == namevar]
     if not appends:
         R.undecided(rid, 'Chain._expand_tasks', 'pattern expansion loop not recognised', where=where(fex))
         return
